@@ -228,6 +228,9 @@ ARGV_TEMPLATES = [
     dict(name="stereo-u1", argv=["-c", "2", "-u", "1"]),
     dict(name="stereo-mix", argv=["-c", "2", "-u", "mix", "-e", "75"]),
     dict(name="threshold", argv=["-e", "85"]),
+    dict(name="unicode-printf", argv=["--printf", "\u2192 {id}: {start} \u00e9 {end}\\t|"]),
+    dict(name="stereo-u-1", argv=["-c", "2", "-u", "-1"]),
+    dict(name="stereo-u-2", argv=["-c", "2", "-u", "-2"]),
     dict(name="stdin-window-0.2", argv=["-a", "0.2", "-n", "0.2", "-m", "0.6", "-s", "0.2"], stdin=True),
     dict(name="file-window-0.2", argv=["-a", "0.2", "-n", "0.2", "-m", "0.6", "-s", "0.2"]),
     dict(name="min-dur", argv=["-n", "0.2", "-s", "0"]),
@@ -527,6 +530,7 @@ def replay(c):
 
 
 def run(rep):
+    tok.VALIDATE[0] = replay_fn
     imap = S.modules()
     imap["time"] = S.time_module()
     L = loader.load(thr.NAMES + ("cmdline_util", "cmdline"), import_map=imap)
